@@ -2864,6 +2864,18 @@ fn eval_built_in_call(
             }
         }
         BuiltInFunctionKind::PreludeReadLine => {
+            if env.enforce_sandbox {
+                let mut saved_values = vec![receiver_value.clone()];
+                for value in arg_values.iter().rev() {
+                    saved_values.push(value.clone());
+                }
+
+                return Err((
+                    RestoreValues(saved_values),
+                    EvalError::ForbiddenInSandbox(receiver_pos.clone()),
+                ));
+            }
+
             check_arity(
                 &SymbolName {
                     text: format!("{kind}"),
